@@ -401,3 +401,37 @@ def c10_f(ctx):
     ctx.check(ok, ep, 'posterior ingredients', 'surrogate, threshold, prior in surrogate order',
               'the posterior is not built from (target_model, threshold, ModelPrior in '
               'target_model.parameter_names order)', fn=ep, node=rr[-1] if rr else ep.node)
+
+
+@obligation('C10-g', 'T13', 'likelihood and gradient unwrap single points under one condition',
+            floor=2, necessary='different conditions make logpdf and its gradient disagree on '
+                               'the shape they return for the same query')
+def c10_g(ctx):
+    from .C08 import squeeze_conditions
+    bp, lp, glp, lik, glik = lik_fns(ctx)
+    ca, cb = squeeze_conditions(ctx, lik), squeeze_conditions(ctx, glik)
+    ok = len(ca) >= 2 and len(cb) >= 2 and len(set(t for (n, t) in ca) | set(t for (n, t) in cb)) == 1
+    ctx.check(ok, lik, 'one unwrap condition everywhere',
+              'ndim == 0 or (ndim == 1 and dim > 1) in both functions and both exits',
+              'likelihood unwraps under {} but gradient under {}'.format(
+                  sorted(set(show(t)[:60] for (n, t) in ca)),
+                  sorted(set(show(t)[:60] for (n, t) in cb))), fn=lik,
+              node=ca[0][0] if ca else lik.node)
+    want = pattern('np.asanyarray(x).ndim == 0 or (np.asanyarray(x).ndim == 1 and 1 < self.dim)')
+    ok = bool(ca) and all(match(t, want) is not None for (n, t) in ca + cb)
+    ctx.check(ok, lik, 'unwrap exactly for a single point', '',
+              'the unwrap condition is not `ndim == 0 or (ndim == 1 and dim > 1)`', fn=lik,
+              node=ca[0][0] if ca else lik.node)
+    # threshold default: minimum of the surrogate mean over the bounds
+    init = ctx.own_method(bp, '__init__')
+    ex = ctx.ex(init)
+    st = [s for (s, t, k) in ctx.stores(init, 'self.threshold') if isinstance(s, ast.Assign)]
+    dflt = [s for s in st if ex.term(s.value) != ('param', 'threshold')]
+    ok = len(dflt) == 1 and ex.term(dflt[0].value)[0] == 'item' and ex.term(dflt[0].value)[2] == 1 \
+        and match(ex.term(dflt[0].value)[1],
+                  pattern('minimize(self.model.predict_mean, self.model.bounds, *_)')) is not None \
+        and any(pol and match(t, pattern('self.threshold is None')) is not None
+                for (t, pol, _) in ctx.guards(init, dflt[0]))
+    ctx.check(ok, init, 'default threshold', 'minimum of the surrogate mean when none is given',
+              'the default threshold is not the minimum value found by minimize(predict_mean, '
+              'bounds)', fn=init, node=dflt[0] if dflt else init.node)
